@@ -9,7 +9,7 @@ Stage K, for every generated (module, value, codec):
 """
 from .. import core, impl
 from ..codecs import MODELLED, RT_CODECS, value_tags, py_equal, impl_answer_enc, impl_answer_dec
-from ..gen import Gen, Opts, module_text, ty_sx, val_sx, canon_py, features, is_modelled
+from ..gen import Gen, Opts, module_text, ty_sx, val_sx, canon_py, features, is_modelled, RefCtx
 
 CODECS = ['ber', 'der', 'per', 'uper', 'oer']
 CANONICAL = ('der', 'per', 'uper', 'oer')
@@ -36,34 +36,124 @@ def attribute(tags, codec):
     return None
 
 
+def work(job):
+    """Evaluate one chunk of cases on the implementation (runs in a worker process)."""
+    chunk, answers_for = job
+    part = core.Part()
+    dec_jobs = []
+    for (ci, tname, t, variants, vals) in chunk:
+      nontrivial_type = t['k'] not in ('bool', 'null') and (t['k'] != 'int' or t['con'])
+      modelled = is_modelled(t)
+      for variant, text, codecs in variants:
+        for codec in codecs:
+            st, spec = impl.compile_text(text, codec)
+            if st != 'ok':
+                part.count('compile.' + st)
+                if st.startswith('Foreign'):
+                    part.violation('compiler raised a foreign exception on a valid module', {'codec': codec, 'module': text, 'error': spec})
+                continue
+            part.count('variant.' + variant)
+            for vi, v in enumerate(vals):
+                part.case((text, repr(v), codec), nontrivial=nontrivial_type)
+                tags = value_tags(t, v, codec)
+                r = impl.encode(spec, tname, v)
+                part.count('%s.enc.%s' % (codec, r[0] if r[0] == 'ok' else r[1].split(':')[0]))
+                problem = None
+                detail = {}
+                if r[0] != 'ok':
+                    problem = 'encode of a checked value failed: %s %s' % (r[1], r[2])
+                else:
+                    data = r[1]
+                    d = impl.decode(spec, tname, data)
+                    if d[0] != 'ok':
+                        problem = 'decode of own encoding failed: %s %s' % (d[1], d[2])
+                    elif not py_equal(t, d[1], v):
+                        problem = 'decoded value differs from the encoded one'
+                        detail['decoded'] = repr(d[1])[:400]
+                    else:
+                        r2 = impl.encode(spec, tname, d[1])
+                        if r2[0] != 'ok':
+                            problem = 'decoded value is rejected by the encoder: %s' % (r2[1],)
+                        elif codec in CANONICAL and r2[1] != data:
+                            problem = 're-encoding the decoded value gives different bytes'
+                            detail['reencoded'] = r2[1].hex()
+                    detail['encoded'] = data.hex()
+                model_rt = model_enc = None
+                ans = answers_for.get((ci, vi, codec))
+                if ans is not None:
+                    model_rt, model_enc = (ans[0] if codec in RT_CODECS else None), ans[1]
+                    mine = impl_answer_enc(r)
+                    if model_enc.endswith('unmodelled'):
+                        part.count(codec + '.model.unmodelled')
+                    elif mine != model_enc and problem is None and not tags:
+                        part.disagreement('corr.%s.encode' % codec, {'module': text, 'value': repr(v)[:300], 'impl': mine[:200], 'model': model_enc[:200]})
+                    if r[0] == 'ok' and problem is None and not tags:
+                        dec_jobs.append((t, text, codec, r[1], tname))
+                if problem:
+                    hyps_ok = model_rt is not None and all(x in model_rt for x in ('wf=T', 'defaults=T', 'hasType=T', 'fragFree=T'))
+                    urt = answers_for.get((ci, vi, 'uper'))
+                    if urt is not None and codec in ('per', 'uper') and 'fragFree=F' in urt[0]:
+                        tags = tags | {'unfragmented'}
+                        if codec == 'uper':
+                            hyps_ok = False
+                    att = attribute(tags, codec)
+                    if att and not hyps_ok:
+                        part.known_finding(att[0], att[1])
+                    else:
+                        part.violation('%s: %s' % (codec, problem), dict(detail, codec=codec, module=text, type=tname, variant=variant, value=repr(v),
+                                                                         tags=sorted(tags), model_rt=model_rt))
+                elif nontrivial_type and codec in MODELLED and modelled:
+                    part.sample({'codec': codec, 'module': text, 'value': repr(v)[:300], 'encoded': detail.get('encoded', '')[:80],
+                                 'model_enc': (model_enc or '')[:90], 'model_rt': model_rt})
+    # decode correspondence for this chunk
+    if dec_jobs:
+        model = core.Model()
+        ans = model.batch(['dec\t%s\t%s\t%s' % (codec, ty_sx(t), data.hex() or '-') for t, text, codec, data, tname in dec_jobs])
+        part.count('model_driver_requests', len(dec_jobs))
+        for (t, text, codec, data, tname), a in zip(dec_jobs, ans):
+            if a.endswith('unmodelled'):
+                continue
+            st, spec = impl.compile_text(text, codec)
+            mine = impl_answer_dec(t, impl.decode(spec, tname, data))
+            if mine != a:
+                part.disagreement('corr.%s.decode' % codec, {'module': text, 'data': data.hex()[:200], 'impl': mine[:200], 'model': a[:200]})
+    return part
+
+
 def run(ctx):
     rng = ctx.rng
     ctx.assumptions += [
         'model universe: BOOLEAN, NULL, INTEGER (all constraint shapes), ENUMERATED, OCTET/BIT STRING, IA5/Visible/Numeric/Printable/UTF8String with SIZE, '
-        'SEQUENCE (OPTIONAL/DEFAULT/extension additions), SEQUENCE OF, CHOICE (extensible) under AUTOMATIC TAGS; uper and oer are modelled in Lean, '
-        'ber/der/per are covered by direct evaluation of the property on the implementation only',
+        'SEQUENCE (OPTIONAL/DEFAULT/extension additions), SEQUENCE OF, CHOICE (extensible) under AUTOMATIC TAGS; all five binary codecs are modelled in Lean; '
+        'REAL, OBJECT IDENTIFIER, SET, SET OF are covered by direct evaluation of the property on the implementation only',
         'CPython str.encode/bytes.decode (ascii, utf-8) assumed mutually inverse on valid scalars',
     ]
-    ctx.extra['rule'] = ('type-directed random modules (depth<=3) rendered to ASN.1 text and compiled by the real compiler; 4 boundary-biased values per type; '
-                         'per (type,value,codec): round-trip, re-encode and (uper/oer) byte/value equality with the Lean model. '
-                         'distinct_nontrivial = distinct (type,value) pairs whose type has a constraint, a container or an extension marker')
-    ntypes = ctx.n(450, 9000)
-    opts = Opts(big_lengths=0.03 if ctx.quick() else 0.08, max_depth=3 if ctx.quick() else 4)
-    opts_ext = Opts(big_lengths=0.02, max_depth=3, kinds=opts.kinds + ['real', 'oid', 'set', 'setof', 'set', 'setof'])
+    ctx.extra['rule'] = ('type-directed random modules (two top-level types, depth<=3, recurring member names, up to 17 additions) rendered to ASN.1 text three ways (plain; reorganised with shared type references, value references and member-level constraints on references; reorganised without AUTOMATIC TAGS for tag-independent codecs) and compiled by the real compiler; 3 boundary-biased values per type; '
+                         'per (type,value,codec): round-trip, re-encode and byte/value equality with the Lean model (enc and dec) for types inside the model universe. '
+                         'distinct_nontrivial = distinct (module,value,codec) whose type has a constraint, a container or an extension marker')
+    nmods = ctx.n(230, 4500)
+    opts = Opts(big_lengths=0.02 if ctx.quick() else 0.08, max_depth=3 if ctx.quick() else 4)
+    opts_ext = Opts(big_lengths=0.01, max_depth=3, kinds=opts.kinds + ['real', 'oid', 'set', 'setof', 'set', 'setof'])
     cases = []
     feat = {}
-    for i in range(ntypes):
+    TAGFREE = ('uper', 'per')      # encodings that do not depend on tags when no CHOICE/SET is involved
+    for i in range(nmods):
         g = Gen(rng, opts if i % 4 else opts_ext)
-        t = g.type()
-        text = module_text([('A', t)])
-        features(t, feat)
-        vals = [g.value(t) for _ in range(4)]
-        cases.append((t, text, vals))
+        types = [('A', g.type()), ('B', g.type())]
+        plain = module_text(types)
+        rc = RefCtx(rng, p_type=0.35, p_value=0.3, p_con_on_ref=0.3)
+        reorg = module_text(types, ctx=rc)
+        variants = [('plain', plain, CODECS), ('reorganised', reorg, CODECS)]
+        if not any(k in plain for k in ('CHOICE', 'SET')):
+            rc2 = RefCtx(rng, p_type=0.5, p_value=0.2, p_con_on_ref=0.4)
+            variants.append(('reorganised-untagged', module_text(types, ctx=rc2, tags=''), TAGFREE))
+        for tname, t in types:
+            features(t, feat)
+            vals = [g.value(t) for _ in range(3)]
+            cases.append((len(cases), tname, t, variants, vals))
     ctx.hist.update({'type.' + k: v for k, v in feat.items()})
-    # model requests for modelled codecs
-    reqs = []
-    index = {}
-    for ci, (t, text, vals) in enumerate(cases):
+    reqs, index = [], {}
+    for (ci, tname, t, variants, vals) in cases:
         if not is_modelled(t):
             continue
         tsx = ty_sx(t)
@@ -73,91 +163,16 @@ def run(ctx):
                 index[(ci, vi, codec)] = len(reqs)
                 reqs.append('rt\t%s\t%s\t%s' % (codec if codec in RT_CODECS else 'uper', tsx, vsx))
                 reqs.append('enc\t%s\t%s\t%s' % (codec, tsx, vsx))
-    answers = ctx.model.batch(reqs) if ctx.model.available() else None
-    if answers is None:
-        ctx.disagreement('model driver missing', {})
-    dec_reqs = []
-    dec_meta = []
-    for ci, (t, text, vals) in enumerate(cases):
-        nontrivial_type = t['k'] not in ('bool', 'null') and (t['k'] != 'int' or t['con'])
-        for codec in CODECS:
-            st, spec = impl.compile_text(text, codec)
-            if st != 'ok':
-                ctx.count('compile.' + st)
-                if st.startswith('Foreign'):
-                    ctx.violation('compiler raised a foreign exception on a valid module', {'codec': codec, 'module': text, 'error': spec})
-                continue
-            for vi, v in enumerate(vals):
-                ctx.case((text, repr(v), codec), nontrivial=nontrivial_type)
-                tags = value_tags(t, v, codec)
-                r = impl.encode(spec, 'A', v)
-                ctx.count('%s.enc.%s' % (codec, r[0] if r[0] == 'ok' else r[1].split(':')[0]))
-                problem = None
-                detail = {}
-                if r[0] != 'ok':
-                    problem = 'encode of a checked value failed: %s %s' % (r[1], r[2])
-                else:
-                    data = r[1]
-                    d = impl.decode(spec, 'A', data)
-                    if d[0] != 'ok':
-                        problem = 'decode of own encoding failed: %s %s' % (d[1], d[2])
-                    elif not py_equal(t, d[1], v):
-                        problem = 'decoded value differs from the encoded one'
-                        detail['decoded'] = repr(d[1])[:400]
-                    else:
-                        r2 = impl.encode(spec, 'A', d[1])
-                        if r2[0] != 'ok':
-                            problem = 'decoded value is rejected by the encoder: %s' % (r2[1],)
-                        elif codec in CANONICAL and r2[1] != data:
-                            problem = 're-encoding the decoded value gives different bytes'
-                            detail['reencoded'] = r2[1].hex()
-                    detail['encoded'] = data.hex()
-                # model correspondence
-                model_rt = model_enc = None
-                if answers is not None and codec in MODELLED and (ci, vi, codec) in index:
-                    j = index[(ci, vi, codec)]
-                    model_rt, model_enc = (answers[j] if codec in RT_CODECS else None), answers[j + 1]
-                    mine = impl_answer_enc(r)
-                    if model_enc.endswith('unmodelled'):
-                        ctx.count(codec + '.model.unmodelled')
-                    elif mine != model_enc:
-                        if problem is None:
-                            # property holds on this input, model differs: correspondence broken
-                            ctx.disagreement('corr.%s.encode' % codec, {'module': text, 'value': repr(v)[:300], 'impl': mine[:200], 'model': model_enc[:200]})
-                    if r[0] == 'ok':
-                        dec_reqs.append('dec\t%s\t%s\t%s' % (codec, ty_sx(t), r[1].hex() or '-'))
-                        dec_meta.append((t, text, v, codec, r[1], problem is None))
-                if problem:
-                    hyps_ok = model_rt is not None and all(x in model_rt for x in ('wf=T', 'defaults=T', 'hasType=T', 'fragFree=T'))
-                    # the Lean finding predicate F_unfragmented (Uper.fragFree) decides for uper, and by proxy for per
-                    if answers is not None and codec in ('per', 'uper') and (ci, vi, 'uper') in index:
-                        urt = answers[index[(ci, vi, 'uper')]]
-                        if 'fragFree=F' in urt:
-                            tags = tags | {'unfragmented'}
-                            if codec == 'uper':
-                                hyps_ok = False
-                    att = attribute(tags, codec)
-                    if att and not hyps_ok:
-                        ctx.known_finding(att[0], att[1])
-                    elif att and model_rt is None:
-                        ctx.known_finding(att[0], att[1])
-                    else:
-                        ctx.violation('%s: %s' % (codec, problem), dict(detail, codec=codec, module=text, value=repr(v),
-                                                                        tags=sorted(tags), model_rt=model_rt))
-                elif len(ctx.samples) < 3 and nontrivial_type and codec in MODELLED:
-                    ctx.sample({'codec': codec, 'module': text, 'value': repr(v)[:300], 'encoded': detail.get('encoded', '')[:80],
-                                'model_enc': (model_enc or '')[:90], 'model_rt': model_rt})
-    # decode correspondence
-    if dec_reqs:
-        ans = ctx.model.batch(dec_reqs)
-        for (t, text, v, codec, data, prop_ok), a in zip(dec_meta, ans):
-            st, spec = impl.compile_text(text, codec)
-            d = impl.decode(spec, 'A', data)
-            mine = impl_answer_dec(t, d)
-            if a.endswith('unmodelled'):
-                continue
-            if mine != a and prop_ok:
-                ctx.disagreement('corr.%s.decode' % codec, {'module': text, 'data': data.hex()[:200], 'impl': mine[:200], 'model': a[:200]})
+    answers = ctx.model.batch(reqs)
+    nchunks = 28
+    jobs = []
+    for k in range(nchunks):
+        chunk = cases[k::nchunks]
+        ids = {c[0] for c in chunk}
+        jobs.append((chunk, {key: (answers[j], answers[j + 1]) for key, j in index.items() if key[0] in ids}))
+    parts = core.parallel_map(work, jobs)
+    core.merge(ctx, parts)
+    ctx.model.calls += ctx.hist.pop('model_driver_requests', 0)
     witnesses(ctx)
 
 
@@ -197,7 +212,7 @@ def replay(ctx, path):
     d = json.load(open(path))['replay']
     print(json.dumps(d, indent=1)[:3000])
     if isinstance(d, dict) and 'module' in d and 'value' in d and 'codec' in d:
-        v = eval(d['value'])
+        v = eval(d['value'], {'inf': float('inf'), 'nan': float('nan')})
         st, spec = impl.compile_text(d['module'], d['codec'])
         r = impl.encode(spec, 'A', v)
         print('encode:', r[0], r[1].hex() if r[0] == 'ok' else r[1:])
